@@ -53,6 +53,7 @@ mvars == <<pc, cur, ok, pos, stk, K, at, look, dep, toks, calls, cdep, trk, skp,
 vars == <<cfg, mvars>>
 
 StackBound == 400
+DataBound == 200
 
 --------------------------------------------------------------------------
 (* Tracker (main/src/tracker.rs) *)
@@ -477,7 +478,9 @@ Finish == pc = "eoi" /\
   /\ fin' = fin @@ [fullok |-> b, fullend |-> Off(pos), fulltrk |-> Report(t2)]
   /\ UNCHANGED <<cfg, cur, pos, stk, K, skp>> /\ UTree /\ UDv /\ UEv
 
-Overflow == pc \in {"eval", "ret"} /\ Len(K) > StackBound /\ pc' = "overflow"
+\* no verdict beyond these bounds: the continuation stack (the code's call stack) or the parse stack (a zero-width iteration that
+\* pushes: the state never repeats, so RepDiverge cannot see it) has outgrown anything a returning parse of the corpus reaches
+Overflow == pc \notin {"done", "diverged", "overflow"} /\ (Len(K) > StackBound \/ Len(stk) > DataBound) /\ pc' = "overflow"
             /\ UNCHANGED <<cur, ok, pos, stk, K>> /\ UEnv /\ UTree /\ UTrk /\ UDv /\ UEv
 
 --------------------------------------------------------------------------
@@ -495,7 +498,7 @@ Step ==
   \/ SkipNone \/ SkipBegin \/ SkipWSFail \/ SkipIterOk \/ SkipDiverge \/ SkipEnd
   \/ PartialDone \/ TrailDone \/ Finish
 
-MNext == (Len(K) <= StackBound /\ Step) \/ Overflow
+MNext == (Len(K) <= StackBound /\ Len(stk) <= DataBound /\ Step) \/ Overflow
 
 \* initial machine state for a loaded configuration
 MInit ==
